@@ -1300,6 +1300,7 @@ func (x *Exec) mapStore(st *State, m *Value, u *types.Map, k, val *Value, at ast
 		}
 	}
 	x.safety(st, "nilmap", at, x.b.Neq(m.scalar(), x.b.Int(0)))
+	x.setMapEmpty(st, m.scalar(), x.b.False())
 	kt, ok := x.mapKeyTerm(k)
 	if !ok {
 		x.note("map-with-composite-key")
@@ -1316,6 +1317,7 @@ func (x *Exec) mapStore(st *State, m *Value, u *types.Map, k, val *Value, at ast
 }
 
 func (x *Exec) mapDelete(st *State, m *Value, u *types.Map, k *Value) {
+	x.setMapEmpty(st, m.scalar(), x.b.Fresh("map.empty", BoolSort))
 	kt, ok := x.mapKeyTerm(k)
 	if !ok {
 		return
@@ -1326,6 +1328,7 @@ func (x *Exec) mapDelete(st *State, m *Value, u *types.Map, k *Value) {
 }
 
 func (x *Exec) mapInitEmpty(st *State, m *Value, u *types.Map) {
+	x.setMapEmpty(st, m.scalar(), x.b.True())
 	ks := x.leavesOf(u.Key())
 	if len(ks) != 1 {
 		return
@@ -1349,4 +1352,15 @@ func strTrimPkg(s string) string {
 		return s[i+1:]
 	}
 	return s
+}
+
+// map emptiness is tracked per map reference (exact for creation and insert,
+// unknown after delete)
+func (x *Exec) setMapEmpty(st *State, ref *Term, v *Term) {
+	arr := x.heapArr(st, "alloc.mapempty", BoolSort)
+	st.heap["alloc.mapempty"] = x.b.Store(arr, ref, v)
+}
+
+func (x *Exec) mapIsEmpty(st *State, ref *Term) *Term {
+	return x.b.Select(x.heapArr(st, "alloc.mapempty", BoolSort), ref)
 }
